@@ -145,7 +145,7 @@ def make_worker(case, ctx, name, marker, cls=None, extra_kwargs=None):
         target, args = vtargets.spin_finally, [marker]
     elif sc == 'persist':
         target, args = vtargets.item_or_raise, None
-    elif sc == 'state_unrebuildable':
+    elif sc == 'state_unrebuildable' or sc.startswith('spin_state:'):
         target, args = None, None
     elif sc.startswith('raise:'):
         target, args = vtargets.raise_exc, [sc.split(':')[1], ['a', 1]]
@@ -159,6 +159,12 @@ def make_worker(case, ctx, name, marker, cls=None, extra_kwargs=None):
         import vworkers
         cls = vworkers.CLASSES[kind]
         target, args = vworkers.state_target, (None if kind.startswith('p_') else [['needsargs'], 'return'])
+        kw['init_state'] = 0
+    if sc.startswith('spin_state:'):
+        # endless target of a stateful worker whose user_state cannot be sent ('lock') or cannot be rebuilt by the parent ('needsargs')
+        import vworkers
+        cls = vworkers.CLASSES[kind]
+        target, args = vworkers.state_target, [[sc.split(':')[1]], 'spin']
         kw['init_state'] = 0
     if case.get('pipe') == 'supplied' and kind.startswith('p_'):
         kw['results_pipe'] = Pipe()
